@@ -1,6 +1,7 @@
 import WuffsVerif.Common.Line
 import WuffsVerif.Model.IOHelpers
 import WuffsVerif.Model.Suspend
+import WuffsVerif.Model.StatusFlow
 /-!
 Line driver for C03 (`wv_c03`). Ops (io2 is always the end of the given buffer):
 
@@ -15,6 +16,11 @@ Line driver for C03 (`wv_c03`). Ops (io2 is always the end of the given buffer):
   performs ONE suspending built-in, driven over a source (destination for `write`) that grows by the
   given chunk sizes; prints one `status:consumed` per call and the final value:
   `[s0:c0,s1:c1,…] <value>` with s ∈ `ok`, `sr` ($short read), `sw` ($short write).
+* `flow <fn> <ast> <names> <script>`: a wrapper coroutine in the compact form of `Model/StatusFlow.lean`
+  (translated from the probe package's source by harness/cmd/c03/flow.go) run by `StatusFlow.exec` in the
+  world of the probe: the inner coroutine answers by the next input byte (`E` error 5, `N` note 5, `W`
+  suspension 5 then ok, other ok, none `$short read`); script = `<hex new bytes>:<closed>,…`, one item per
+  call. Prints the checker's verdict and what each call returned: `G|U [status:ri,…]`.
 -/
 open WuffsVerif.Line
 open WuffsVerif
@@ -94,6 +100,67 @@ partial def writeLoop (v : Nat) (caps : List Nat) (acc : List String) (fuel : Na
     else writeLoop v caps' (acc ++ [s!"sw:{s.iop}"]) (fuel - 1)
   | _ => "bad"
 
+/-! ### `flow`: the world of the probe package -/
+
+structure PW where
+  window : List UInt8
+  consumed : Nat
+  pendingW : Bool
+  future : List (List UInt8 × Bool)
+  ris : List Nat
+  deriving Inhabited
+
+def probeWorld : StatusFlow.World PW where
+  call w :=
+    if w.pendingW then (.ok, { w with pendingW := false })
+    else match w.window with
+      | [] => (.shortRead, w)
+      | b :: r =>
+        let w' := { w with window := r, consumed := w.consumed + 1 }
+        if b == 0x45 then (.err 5, w')
+        else if b == 0x4E then (.note 5, w')
+        else if b == 0x57 then (.susp 5, { w' with pendingW := true })
+        else (.ok, w')
+  anyStatus w := (.ok, w)
+  anyBool w := (false, w)
+  resume w :=
+    match w.future with
+    | [] => none
+    | (bs, c) :: f => some (c, { w with window := w.window ++ bs, consumed := 0, ris := w.consumed :: w.ris, future := f })
+
+def parseScript (s : String) : Option (List (List UInt8 × Bool)) :=
+  (s.splitOn ",").mapM (fun item =>
+    match item.splitOn ":" with
+    | [h, c] => (fromHex h).map (fun b => (b, c == "1"))
+    | _ => none)
+
+def statusName (names : List (String × String)) (s : StatusFlow.Status) : String :=
+  let key := match s with
+    | .ok => "ok"
+    | .shortRead => "r"
+    | .note k => s!"n{k}"
+    | .err k => s!"e{k}"
+    | .susp k => s!"s{k}"
+  match s with
+  | .ok => "ok"
+  | .shortRead => "$base:_short_read"
+  | _ => match names.find? (fun p => p.1 == key) with
+    | some p => p.2
+    | none => "?" ++ key
+
+def flowOp (ast names script : String) : String :=
+  match StatusFlow.parseStmt ast, parseScript script with
+  | some st, some ((b0, c0) :: rest) =>
+    let nm := (names.splitOn ",").filterMap (fun e => match e.splitOn "=" with | [k, v] => some (k, v) | _ => none)
+    let w0 : PW := { window := b0, consumed := 0, pendingW := false, future := rest, ris := [] }
+    let r := StatusFlow.exec probeWorld 100000 st ⟨c0, fun _ => .ok, w0, []⟩
+    -- falling off the end of the body returns ok
+    let tr := if r.1 == .normal then (r.2.closed, StatusFlow.Status.ok) :: r.2.trace else r.2.trace
+    let ris := r.2.w.consumed :: r.2.w.ris
+    let items := (tr.zip ris).reverse.map (fun p => statusName nm p.1.2 ++ ":" ++ toString p.2)
+    (if StatusFlow.guarded st then "G" else "U") ++ " [" ++ ",".intercalate items ++ "]"
+  | _, _ => "bad-op"
+
 def step (f : List String) : String :=
   match f with
   | ["hist", variant, hb, io0, iop, len, dist] =>
@@ -126,6 +193,7 @@ def step (f : List String) : String :=
         suspLoop kind (be == 1) xx yy arg b chunks [] none true [] 100000
       else "bad-op"
     | _, _, _, _, _, _ => "bad-op"
+  | ["flow", _fn, ast, names, script] => flowOp ast names script
   | _ => "bad-op"
 
 end C03Driver
